@@ -227,14 +227,15 @@ Refine(cur, new) ==
   IN
   IF IsBang(new) \/ HasStar(neg) THEN FNone
   ELSE IF cur.c \in {"all", "none"}
-  THEN Collapse([c |-> "acc", alts |-> Specifics(pos), excl |-> neg, sup |-> <<>>,
-                 star |-> (Len(pos) = 0 \/ HasStar(pos))])
+  THEN IF HasStar(pos)     \* alternatives given together with `*` are superseded by it at once
+       THEN Collapse([c |-> "acc", alts |-> <<>>, excl |-> neg, sup |-> Specifics(pos), star |-> TRUE])
+       ELSE Collapse([c |-> "acc", alts |-> Specifics(pos), excl |-> neg, sup |-> <<>>, star |-> Len(pos) = 0])
   ELSE LET excl2 == cur.excl \o neg IN
        IF Len(pos) = 0
        THEN [cur EXCEPT !.excl = excl2]
        ELSE IF HasStar(pos)
        THEN Collapse([c |-> "acc", alts |-> <<>>, excl |-> excl2,
-                      sup |-> cur.sup \o cur.alts, star |-> TRUE])
+                      sup |-> cur.sup \o cur.alts \o Specifics(pos), star |-> TRUE])
        ELSE Collapse([c |-> "acc", alts |-> cur.alts \o Specifics(pos), excl |-> excl2,
                       sup |-> cur.sup, star |-> FALSE])
 
